@@ -1,0 +1,386 @@
+//! Verification seams. Compiled only with `--cfg flounder_verif`; the shipped
+//! engine never sees this file.
+//!
+//! This module holds no engine logic. It is a holder for a per-thread simulator
+//! object (`Sim`) plus thin stand-ins for the few `std` / `rand` facilities the
+//! engine uses to talk to the outside world (clock, stdin, stdout, process exit,
+//! randomness). When no simulator is installed on the current thread every
+//! stand-in forwards to the real facility, so a guarded build behaves like the
+//! normal one.
+#![allow(dead_code, unused_imports)]
+
+use std::cell::RefCell;
+use std::time::Duration;
+
+/// Events reported to the simulator; they never influence the engine.
+#[derive(Clone, Debug)]
+pub enum Event {
+    /// `probe_transposition_table` answered from the cache.
+    TtHit {
+        entry_depth: u8,
+        requested_depth: u8,
+        exact: bool,
+    },
+    /// Arguments of a `TranspositionTable::store` call
+    /// (`mv` = from, to, piece index, move-type index).
+    TtStore {
+        key: u64,
+        eval: i32,
+        mv: Option<[u8; 4]>,
+        depth: u8,
+        bound: u8,
+    },
+    /// Argument of a `TranspositionTable::retrieve` call.
+    TtRetrieve { key: u64 },
+}
+
+pub const SITE_TT_PROBE_MISS: u8 = 0;
+pub const SITE_TT_STORE_DROP: u8 = 1;
+
+pub const NODE_MAIN: u8 = 0;
+pub const NODE_QUIESCENCE: u8 = 1;
+
+/// What a simulator has to provide. One object per simulated engine process.
+pub trait Sim {
+    /// One read of the monotonic clock, in virtual nanoseconds.
+    fn clock_read(&mut self) -> u64;
+    /// One raw read from standard input (as `Read::read`).
+    fn read(&mut self, buf: &mut [u8]) -> std::io::Result<usize>;
+    /// Bytes written to standard output.
+    fn out(&mut self, s: &str);
+    /// The process asked to exit with `code` (the caller unwinds afterwards).
+    fn exit(&mut self, code: i32);
+    /// Seed for the next `thread_rng()` handle.
+    fn rng_seed(&mut self) -> u64;
+    /// A search node was entered.
+    fn on_node(&mut self, kind: u8);
+    /// The search timer was armed with this budget.
+    fn on_timer_start(&mut self, limit: Option<Duration>);
+    /// Cooperative fault point: `true` = take the unusual-but-legal path.
+    fn buggify(&mut self, site: u8) -> bool;
+    /// Pure observation.
+    fn observe(&mut self, ev: Event);
+}
+
+thread_local! {
+    static SIM: RefCell<Option<Box<dyn Sim>>> = RefCell::new(None);
+    static STDIN_BUF: RefCell<std::io::BufReader<RawStdin>> =
+        RefCell::new(std::io::BufReader::new(RawStdin));
+}
+
+/// Payload of the unwind that stands in for `process::exit` under simulation.
+#[derive(Debug, Clone, Copy)]
+pub struct SimExit(pub i32);
+
+/// Installs a simulator on this thread (replacing any previous one) and
+/// discards buffered input of an earlier simulated process.
+pub fn install(sim: Box<dyn Sim>) {
+    SIM.with(|s| *s.borrow_mut() = Some(sim));
+    STDIN_BUF.with(|b| *b.borrow_mut() = std::io::BufReader::new(RawStdin));
+}
+
+pub fn uninstall() -> Option<Box<dyn Sim>> {
+    SIM.with(|s| s.borrow_mut().take())
+}
+
+pub fn installed() -> bool {
+    SIM.with(|s| s.borrow().is_some())
+}
+
+fn with_sim<R>(f: impl FnOnce(&mut dyn Sim) -> R) -> Option<R> {
+    SIM.with(|s| match s.borrow_mut().as_mut() {
+        Some(sim) => Some(f(sim.as_mut())),
+        None => None,
+    })
+}
+
+pub fn out(s: &str) {
+    if with_sim(|sim| sim.out(s)).is_none() {
+        use std::io::Write;
+        let _ = std::io::stdout().write_all(s.as_bytes());
+    }
+}
+
+#[inline]
+pub fn on_node(kind: u8) {
+    with_sim(|sim| sim.on_node(kind));
+}
+
+pub fn on_timer_start(limit: Option<Duration>) {
+    with_sim(|sim| sim.on_timer_start(limit));
+}
+
+#[inline]
+pub fn buggify(site: u8) -> bool {
+    with_sim(|sim| sim.buggify(site)).unwrap_or(false)
+}
+
+#[inline]
+pub fn observe(ev: Event) {
+    with_sim(|sim| sim.observe(ev));
+}
+
+/// Raw standard input: the simulator's byte stream, or the real one.
+pub struct RawStdin;
+
+impl std::io::Read for RawStdin {
+    fn read(&mut self, buf: &mut [u8]) -> std::io::Result<usize> {
+        match with_sim(|sim| sim.read(buf)) {
+            Some(r) => r,
+            None => std::io::stdin().read(buf),
+        }
+    }
+}
+
+/// Stand-in for the `std` crate inside `uci.rs` and `timer.rs`:
+/// everything is the real `std` except `time::Instant`, `io::stdin`,
+/// `io::stdout` and `process::exit`.
+pub mod std_shim {
+    pub use ::std::*;
+
+    pub mod time {
+        pub use ::std::time::*;
+        use ::std::ops::{Add, AddAssign, Sub, SubAssign};
+
+        #[derive(Copy, Clone, Debug, PartialEq, Eq, PartialOrd, Ord, Hash)]
+        enum Repr {
+            Virtual(u64),
+            Real(::std::time::Instant),
+        }
+
+        /// `std::time::Instant` whose `now()` reads the simulator's clock when
+        /// one is installed.
+        #[derive(Copy, Clone, Debug, PartialEq, Eq, PartialOrd, Ord, Hash)]
+        pub struct Instant(Repr);
+
+        impl Instant {
+            pub fn now() -> Instant {
+                match super::super::with_sim(|sim| sim.clock_read()) {
+                    Some(ns) => Instant(Repr::Virtual(ns)),
+                    None => Instant(Repr::Real(::std::time::Instant::now())),
+                }
+            }
+
+            pub fn elapsed(&self) -> Duration {
+                Instant::now().saturating_duration_since(*self)
+            }
+
+            pub fn duration_since(&self, earlier: Instant) -> Duration {
+                self.saturating_duration_since(earlier)
+            }
+
+            pub fn checked_duration_since(&self, earlier: Instant) -> Option<Duration> {
+                match (self.0, earlier.0) {
+                    (Repr::Virtual(a), Repr::Virtual(b)) => {
+                        a.checked_sub(b).map(Duration::from_nanos)
+                    }
+                    (Repr::Real(a), Repr::Real(b)) => a.checked_duration_since(b),
+                    _ => None,
+                }
+            }
+
+            pub fn saturating_duration_since(&self, earlier: Instant) -> Duration {
+                self.checked_duration_since(earlier).unwrap_or(Duration::ZERO)
+            }
+
+            pub fn checked_add(&self, d: Duration) -> Option<Instant> {
+                match self.0 {
+                    Repr::Virtual(a) => u64::try_from(d.as_nanos())
+                        .ok()
+                        .and_then(|n| a.checked_add(n))
+                        .map(|n| Instant(Repr::Virtual(n))),
+                    Repr::Real(a) => a.checked_add(d).map(|i| Instant(Repr::Real(i))),
+                }
+            }
+
+            pub fn checked_sub(&self, d: Duration) -> Option<Instant> {
+                match self.0 {
+                    Repr::Virtual(a) => u64::try_from(d.as_nanos())
+                        .ok()
+                        .and_then(|n| a.checked_sub(n))
+                        .map(|n| Instant(Repr::Virtual(n))),
+                    Repr::Real(a) => a.checked_sub(d).map(|i| Instant(Repr::Real(i))),
+                }
+            }
+        }
+
+        impl Add<Duration> for Instant {
+            type Output = Instant;
+            fn add(self, d: Duration) -> Instant {
+                self.checked_add(d).expect("overflow when adding duration to instant")
+            }
+        }
+        impl AddAssign<Duration> for Instant {
+            fn add_assign(&mut self, d: Duration) {
+                *self = *self + d;
+            }
+        }
+        impl Sub<Duration> for Instant {
+            type Output = Instant;
+            fn sub(self, d: Duration) -> Instant {
+                self.checked_sub(d).expect("overflow when subtracting duration from instant")
+            }
+        }
+        impl SubAssign<Duration> for Instant {
+            fn sub_assign(&mut self, d: Duration) {
+                *self = *self - d;
+            }
+        }
+        impl Sub<Instant> for Instant {
+            type Output = Duration;
+            fn sub(self, other: Instant) -> Duration {
+                self.saturating_duration_since(other)
+            }
+        }
+    }
+
+    pub mod io {
+        pub use ::std::io::*;
+        use super::super::{with_sim, STDIN_BUF};
+
+        /// Handle to standard input; buffered exactly like the real one
+        /// (a `BufReader` over the raw stream).
+        pub struct Stdin;
+        pub struct StdinLock;
+
+        pub fn stdin() -> Stdin {
+            Stdin
+        }
+
+        impl Stdin {
+            pub fn read_line(&self, buf: &mut String) -> Result<usize> {
+                STDIN_BUF.with(|b| b.borrow_mut().read_line(buf))
+            }
+            pub fn lock(&self) -> StdinLock {
+                StdinLock
+            }
+            pub fn lines(self) -> ShimLines {
+                ShimLines
+            }
+        }
+        impl Read for Stdin {
+            fn read(&mut self, buf: &mut [u8]) -> Result<usize> {
+                STDIN_BUF.with(|b| b.borrow_mut().read(buf))
+            }
+        }
+        impl Read for StdinLock {
+            fn read(&mut self, buf: &mut [u8]) -> Result<usize> {
+                STDIN_BUF.with(|b| b.borrow_mut().read(buf))
+            }
+        }
+        impl StdinLock {
+            pub fn read_line(&mut self, buf: &mut String) -> Result<usize> {
+                STDIN_BUF.with(|b| b.borrow_mut().read_line(buf))
+            }
+            pub fn lines(self) -> ShimLines {
+                ShimLines
+            }
+        }
+
+        /// Line iterator with the semantics of `BufRead::lines`.
+        pub struct ShimLines;
+        impl Iterator for ShimLines {
+            type Item = Result<String>;
+            fn next(&mut self) -> Option<Result<String>> {
+                let mut buf = String::new();
+                match STDIN_BUF.with(|b| b.borrow_mut().read_line(&mut buf)) {
+                    Ok(0) => None,
+                    Ok(_) => {
+                        if buf.ends_with('\n') {
+                            buf.pop();
+                            if buf.ends_with('\r') {
+                                buf.pop();
+                            }
+                        }
+                        Some(Ok(buf))
+                    }
+                    Err(e) => Some(Err(e)),
+                }
+            }
+        }
+
+        /// Handle to standard output, routed to the simulator when installed.
+        pub struct Stdout;
+        pub fn stdout() -> Stdout {
+            Stdout
+        }
+        impl Stdout {
+            pub fn lock(&self) -> Stdout {
+                Stdout
+            }
+        }
+        impl Write for Stdout {
+            fn write(&mut self, buf: &[u8]) -> Result<usize> {
+                let s = String::from_utf8_lossy(buf);
+                if with_sim(|sim| sim.out(&s)).is_none() {
+                    return ::std::io::stdout().write(buf);
+                }
+                Ok(buf.len())
+            }
+            fn flush(&mut self) -> Result<()> {
+                if super::super::installed() {
+                    Ok(())
+                } else {
+                    ::std::io::stdout().flush()
+                }
+            }
+        }
+    }
+
+    pub mod process {
+        pub use ::std::process::*;
+
+        pub fn exit(code: i32) -> ! {
+            if super::super::with_sim(|sim| sim.exit(code)).is_some() {
+                ::std::panic::panic_any(super::super::SimExit(code));
+            }
+            ::std::process::exit(code)
+        }
+    }
+}
+
+/// Stand-in for the `rand` crate inside `zobrist.rs`: the real crate except
+/// that `thread_rng()` is seeded by the simulator when one is installed.
+pub mod rand_shim {
+    pub use ::rand::*;
+    use ::rand::rngs::{StdRng, ThreadRng};
+
+    pub enum ShimRng {
+        Seeded(StdRng),
+        Real(ThreadRng),
+    }
+
+    pub fn thread_rng() -> ShimRng {
+        match super::with_sim(|sim| sim.rng_seed()) {
+            Some(seed) => ShimRng::Seeded(StdRng::seed_from_u64(seed)),
+            None => ShimRng::Real(::rand::thread_rng()),
+        }
+    }
+
+    impl RngCore for ShimRng {
+        fn next_u32(&mut self) -> u32 {
+            match self {
+                ShimRng::Seeded(r) => r.next_u32(),
+                ShimRng::Real(r) => r.next_u32(),
+            }
+        }
+        fn next_u64(&mut self) -> u64 {
+            match self {
+                ShimRng::Seeded(r) => r.next_u64(),
+                ShimRng::Real(r) => r.next_u64(),
+            }
+        }
+        fn fill_bytes(&mut self, dest: &mut [u8]) {
+            match self {
+                ShimRng::Seeded(r) => r.fill_bytes(dest),
+                ShimRng::Real(r) => r.fill_bytes(dest),
+            }
+        }
+        fn try_fill_bytes(&mut self, dest: &mut [u8]) -> Result<(), Error> {
+            match self {
+                ShimRng::Seeded(r) => r.try_fill_bytes(dest),
+                ShimRng::Real(r) => r.try_fill_bytes(dest),
+            }
+        }
+    }
+}
